@@ -378,7 +378,7 @@ func (e *Env) NewBatch(name string, progs []*Program, driver func(*Program) bool
 	}
 	for _, p := range progs {
 		wd := driver != nil && driver(p)
-		b.Driver[p.ID] = wd
+		b.Driver[p.ID] = wd || p.RawDriver
 		if err := WriteFiles(root, p.Files(wd)); err != nil {
 			return nil, err
 		}
